@@ -564,3 +564,82 @@ func PathString(path []*ssa.Function) []string {
 	}
 	return out
 }
+
+// CondEdge is a branch condition together with the edge (true/false) on which a block depends.
+type CondEdge struct {
+	Cond  ssa.Value
+	Taken bool
+	If    *ssa.If
+}
+
+// ControlDeps computes, for every block of fn, the (transitive) set of branch edges it is control dependent on:
+// b depends on edge d->s when b post-dominates s (or is s) and does not post-dominate d.
+type ControlDeps struct {
+	fn     *ssa.Function
+	direct map[*ssa.BasicBlock][]CondEdge
+	from   map[*ssa.BasicBlock][]*ssa.BasicBlock
+}
+
+func NewControlDeps(fn *ssa.Function) *ControlDeps {
+	cd := &ControlDeps{fn: fn, direct: map[*ssa.BasicBlock][]CondEdge{}, from: map[*ssa.BasicBlock][]*ssa.BasicBlock{}}
+	pd := NewPostDom(fn)
+	for _, d := range fn.Blocks {
+		if len(d.Instrs) == 0 {
+			continue
+		}
+		iff, ok := d.Instrs[len(d.Instrs)-1].(*ssa.If)
+		if !ok {
+			continue
+		}
+		for k, s := range d.Succs {
+			for _, b := range fn.Blocks {
+				if (b == s || pd.PostDominates(b, s)) && !(b != d && pd.PostDominates(b, d)) {
+					cd.direct[b] = append(cd.direct[b], CondEdge{Cond: iff.Cond, Taken: k == 0, If: iff})
+					cd.from[b] = append(cd.from[b], d)
+				}
+			}
+		}
+	}
+	return cd
+}
+
+// Of returns the transitive controlling edges of block b (deduplicated).
+func (cd *ControlDeps) Of(b *ssa.BasicBlock) []CondEdge {
+	var out []CondEdge
+	seenB := map[*ssa.BasicBlock]bool{}
+	type ek struct {
+		i *ssa.If
+		t bool
+	}
+	seenE := map[ek]bool{}
+	var walk func(x *ssa.BasicBlock)
+	walk = func(x *ssa.BasicBlock) {
+		if seenB[x] {
+			return
+		}
+		seenB[x] = true
+		for i, e := range cd.direct[x] {
+			k := ek{e.If, e.Taken}
+			if !seenE[k] {
+				seenE[k] = true
+				out = append(out, e)
+			}
+			walk(cd.from[x][i])
+		}
+	}
+	walk(b)
+	return out
+}
+
+var cdCache = map[*ssa.Function]*ControlDeps{}
+
+// ControllingConds returns the conditions (transitively) controlling whether block b executes.
+func ControllingConds(b *ssa.BasicBlock) []CondEdge {
+	fn := b.Parent()
+	cd := cdCache[fn]
+	if cd == nil {
+		cd = NewControlDeps(fn)
+		cdCache[fn] = cd
+	}
+	return cd.Of(b)
+}
